@@ -4,6 +4,7 @@ from rules.common import (PredTrue, PredFalse, CallTrue, where, flat_atoms, all_
                           pred_test, data_test, field_val)
 from rules.C08 import EMERGENCY_FLAG, IS_EXPIRED_F, penalty_calls
 from base import CutPolicy, dep_origins
+from rules.common import rel, rel_sign, om, find_rel
 from absint import EMPTY, vfield, tagvals, const_of
 
 EXPLANATION = ("static analysis (MIR abstract interpretation): the penalty passes `min` with MAX_PENALTY_CAP (= 90%, constant-checked; share "
@@ -66,8 +67,9 @@ def run(W, chk):
         chk.expect("div_ceil" not in o2, "ROUND-penalty", "share:%s" % sorted(to), "round-down only", "penalty share ops %s" % sorted(o2), where(e))
     uniq_owners(chk, A)
     # total < amount cuts all penalty messages
-    lt = PredTrue("total_penalty_fee < amount", lambda pn, pa: pn == "lt" and origin_match(pa[1], r"^Store\(POSITIONS\)\.lp_asset\.amount$") and
-                  "Store(CONFIG).emergency_unlock_penalty" in all_origins(pa[0]))
+    AMT = r"^Store\(POSITIONS\)\.lp_asset\.amount$"
+    is_total = lambda v: "Store(CONFIG).emergency_unlock_penalty" in all_origins(v)   # noqa: E731
+    lt = PredTrue("total_penalty_fee < amount", lambda pn, pa: rel_sign(pn, pa, is_total, "<", om(AMT)))
     for nm, cut in (("penalty < amount", lt), ("emergency flag", EMERGENCY_FLAG), ("not yet expired", IS_EXPIRED_F)):
         pol = CutPolicy([cut])
         B = W.run(FM, "execute", WD, pol)
@@ -77,8 +79,7 @@ def run(W, chk):
     # active-farm filter
     filt = [e for e in A.events if e.kind == "invoke" and re.search(r"withdraw_position::\{closure#\d+\}$", e.name)]
     sw = [e for e in A.switches() if re.search(r"withdraw_position::\{closure#\d+\}$", e.fn)]
-    has_start = any(isinstance(a[0], tuple) and a[0][1] == "le" and exact_origins(a[0][2]) == {"Store(FARMS).start_epoch"} and
-                    exact_origins(a[0][3]) == {"Query(CurrentEpoch).id"} for e in sw for a in e.vals[0].atoms)
+    has_start = bool(find_rel(sw, om(r"^Store\(FARMS\)\.start_epoch$"), "<=", om(r"^Query\(CurrentEpoch\)\.id$")))
     has_exp = any(any(re.search(r"withdraw_position::\{closure#\d+\}$", c) for c in e.chain()) for e in A.calls_id(r"helpers::is_farm_expired$"))
     no_true = all("Const(true)" not in {o for (o, ops) in e.vals[0].atoms if isinstance(o, str)} for e in filt[:1])
     chk.expect(has_start and has_exp and bool(filt) and no_true, "CUT-active-farm-filter", "withdraw_position filter",
@@ -90,10 +91,8 @@ def run(W, chk):
     B = W.run(FM, "execute", WD, pol)
     p3 = penalty_calls(B)
     tot = None
-    for e in B.switches():
-        for a in e.vals[0].atoms:
-            if isinstance(a[0], tuple) and a[0][1] == "lt" and origin_match(a[0][3], r"^Store\(POSITIONS\)\.lp_asset\.amount$"):
-                tot = a[0][2]
+    for (e, a, s) in find_rel(B.switches(), is_total, "<", om(AMT)):
+        tot = a[0] if is_total(a[0]) else a[1]
     ok = bool(pol.hits) and len(p3) == 1 and tot is not None and exact_origins(p3[0].extra["dargs"][2]) == {"Store(CONFIG).fee_collector_addr"} \
         and set(flat_atoms(p3[0].extra["dargs"][1])) == set(flat_atoms(tot))
     chk.expect(ok, "PROV-all-to-collector", "no active farms", "with no active farm owner the fee collector receives exactly total_penalty_fee",
